@@ -356,6 +356,44 @@ def main():
         raise ValueError("timer runner / cancel functions use the source lock inconsistently")
     g.attempt("ao.cancelLocked", True, cancel_locked)
 
+    # ---- active object: publish / subscribe wrappers ---------------------------
+    def wrapper_always_calls():
+        res = []
+        for outer, inner in (("append_subscribe_to_spy", "_append_subscribe_to_spy"),
+                             ("append_publish_to_spy", "_append_publish_to_spy")):
+            fn = find_func(ao_method(outer), inner)
+            top = [s for s in fn.body if isinstance(s, ast.Return) and "fn(" in unparse(s)]
+            nested = [n for n in ast.walk(fn) if isinstance(n, ast.Return) and "fn(" in unparse(n)]
+            if len(nested) != 1:
+                raise ValueError("%s: expected exactly one `return fn(...)`" % inner)
+            res.append(len(top) == 1)
+        if res[0] != res[1]:
+            raise ValueError("subscribe and publish wrappers differ")
+        return res[0]
+    g.attempt("ps.wrapperAlwaysCalls", True, wrapper_always_calls)
+
+    def subscribed_asks_own():
+        fab = [n for n in AF.body if isinstance(n, ast.FunctionDef) and n.name == "subscribed"][0]
+        own = [n for n in AO.body if isinstance(n, ast.FunctionDef) and n.name == "subscribed"][0]
+        has_param = "queue" in [a.arg for a in fab.args.args]
+        passes = "self.fabric.subscribed(event_or_signal, queue_type, self.queue)" in unparse(own)
+        uses = "id(queue) in" in unparse(fab)
+        if has_param and passes and uses:
+            return True
+        if not has_param and not passes:
+            return False
+        raise ValueError("unrecognised subscribed() protocol")
+    g.attempt("ps.subscribedAsksOwnQueue", True, subscribed_asks_own)
+
+    def subscribe_when_running():
+        fn = [n for n in AO.body if isinstance(n, ast.FunctionDef) and n.name == "subscribe"][0]
+        src = unparse(fn)
+        if "if not self.subscribed(event_or_signal, queue_type):" in src and "self._subscribe(event_or_signal, queue_type)" in src \
+                and "SUBSCRIBE_META_SIGNAL" in src and "self.post_lifo(" in src:
+            return True
+        raise ValueError("unrecognised ActiveObject.subscribe")
+    g.attempt("ps.subscribeShape", True, subscribe_when_running)
+
     # ---- emit -------------------------------------------------------------
     v = g.values
     def b(x):
@@ -368,6 +406,7 @@ def main():
     lines.append("import MirosModel.Conc.LockingDeque")
     lines.append("import MirosModel.Conc.Fabric")
     lines.append("import MirosModel.Conc.AO")
+    lines.append("import MirosModel.Conc.PubSub")
     lines.append("namespace Miros.Gen")
     lines.append("def retStatus : List (String × Nat) := " + table(v["retStatus"]))
     lines.append("def signalTable : List (String × Nat) := " + table(v["innerSignals"]))
@@ -384,6 +423,8 @@ def main():
                      v["fab.feOrder"], v["fab.lifoDeliver"], b(v["fab.startKeepsHandles"]), b(v["fab.clearInPlace"]),
                      b(v["fab.subscribeKeepsOthers"])))
     lines.append("def fifoDeliverPlain : Bool := " + b(v["fab.fifoDeliverPlain"]))
+    lines.append("def psTags : Miros.Conc.PS.Tags := { wrapperAlwaysCalls := %s, subscribedAsksOwnQueue := %s }" % (
+        b(v["ps.wrapperAlwaysCalls"]), b(v["ps.subscribedAsksOwnQueue"])))
     lines.append("def aoTags : Miros.Conc.AO.Tags := { checkBeforeStart := %s, cancelEq := %s, cancelLocked := %s }" % (
         b(v["ao.checkBeforeStart"]), b(v["ao.cancelEq"]), b(v["ao.cancelLocked"])))
     lines.append("end Miros.Gen")
